@@ -194,6 +194,23 @@ int rd_parse_block(const uint8_t *file, uint64_t off, uint64_t limit, int versio
 	return 0;
 }
 
+int64_t rd_index_off_override = -1;
+
+/* walk the length-prefixed frames from `start`; they must end exactly at the trailer; the last one is the index block */
+int64_t rd_find_index_by_walking(const uint8_t *data, size_t len, uint64_t start, int version)
+{
+	if (len < 512 || start > len - 512) return -1;
+	uint64_t off = start, last = start, end = len - 512; int n = 0;
+	while (off < end) {
+		uint64_t bl; unsigned ll;
+		if (version == 1) { if (end - off < 8) return -1; bl = rd_le32(data + off); ll = 4; }
+		else { ll = rd_varint(data + off, data + end, &bl); if (!ll) return -1; }
+		if (bl > end - off || ll + 4 > end - off - bl) return -1;
+		last = off; off += ll + 4 + bl; n++;
+	}
+	return (off == end && n > 0) ? (int64_t)last : -1;
+}
+
 #define FERR(...) do { snprintf(f->err, sizeof f->err, __VA_ARGS__); return -1; } while (0)
 
 int rd_parse(const uint8_t *data, size_t len, int64_t start, rd_file_t *f)
@@ -209,6 +226,7 @@ int rd_parse(const uint8_t *data, size_t len, int64_t start, rd_file_t *f)
 	f->trailer_padding_zero = 1;
 	for (int i = 72; i < 508; i++) if (t[i]) f->trailer_padding_zero = 0;
 	uint64_t ioff = f->t[T_INDEX_OFF];
+	if (rd_index_off_override >= 0) ioff = (uint64_t)rd_index_off_override;     /* caller located the index by walking the frames */
 	if (ioff >= len - 512) FERR("index offset %" PRIu64 " not before trailer", ioff);
 	if (f->t[T_COMP] > 5) FERR("unknown compression %" PRIu64, f->t[T_COMP]);
 	if (rd_parse_block(data, ioff, len - 512, f->version, 0, &f->index, f->err) != 0) return -1;
